@@ -36,7 +36,7 @@ class Env:
         return False
 
 
-def make_device(mido, log, incoming, close_after, autoreset=False, name='dev'):
+def make_device(mido, log, incoming, close_after, autoreset=False, name='dev', deliver_on_close=False):
     """Device double: a lock-protected BaseIOPort whose _receive() takes in at
     most one message per poll from `incoming`, and which closes itself (like a
     socket port at EOF) at the first poll after `close_after` deliveries."""
@@ -59,6 +59,12 @@ def make_device(mido, log, incoming, close_after, autoreset=False, name='dev'):
         def _receive(self, block=True):
             log.append((name, 'poll', block))
             if close_after is not None and self.delivered >= close_after:
+                if deliver_on_close and incoming:
+                    # like a socket port that reads the last bytes and the end-of-file in one poll
+                    m = incoming.pop(0)
+                    self.delivered += 1
+                    self.taken_in.append(m)
+                    self._messages.append(m)
                 self.close()
                 return None
             if incoming:
@@ -70,13 +76,13 @@ def make_device(mido, log, incoming, close_after, autoreset=False, name='dev'):
     return Device(name, autoreset=autoreset)
 
 
-def build(cx, mido, kind, log, d, close_after, autoreset):
+def build(cx, mido, kind, log, d, close_after, autoreset, doc=False):
     """-> (port under test, list that receives what the port takes in, feeder)"""
     from mido import ports
     msgs = [mido.Message('note_on', note=10 + i) for i in range(d)]
     if kind == 'device':
         inc = list(msgs)
-        p = make_device(mido, log, inc, close_after, autoreset)
+        p = make_device(mido, log, inc, close_after, autoreset, deliver_on_close=doc)
         return p, [p], inc
     if kind == 'echo':
         class LoggedEcho(ports.EchoPort):
@@ -90,13 +96,13 @@ def build(cx, mido, kind, log, d, close_after, autoreset):
         return p, [], None
     if kind == 'ioport':
         inc = list(msgs)
-        i = make_device(mido, log, inc, close_after, False, 'in')
+        i = make_device(mido, log, inc, close_after, False, 'in', deliver_on_close=doc)
         o = make_device(mido, log, [], None, autoreset, 'out')
         p = ports.IOPort(i, o)
         return p, [i, o], inc
     if kind == 'multi':
         ia, ib = list(msgs[0::2]), list(msgs[1::2])
-        a = make_device(mido, log, ia, close_after, False, 'a')
+        a = make_device(mido, log, ia, close_after, False, 'a', deliver_on_close=doc)
         b = make_device(mido, log, ib, None, False, 'b')
         p = ports.MultiPort([a, b])
         return p, [a, b], ib
@@ -106,14 +112,14 @@ def build(cx, mido, kind, log, d, close_after, autoreset):
 @harness(labels=['no-unexpected-exception', 'close-releases-once', 'reset-once-before-close', 'send-after-close-ValueError',
                  'send-delivers-a-copy', 'fifo-no-loss-no-duplicate', 'poll-never-sleeps', 'blocking-receive-returns-at-once',
                  'closed-and-drained', 'iteration-ends-quietly', 'blocks-only-when-idle-and-open', 'final-drain'])
-def history(cx, kind, n, d, close_after, autoreset):
+def history(cx, kind, n, d, close_after, autoreset, deliver_on_close=False):
     """n operations chosen symbolically on one port of the given kind, with d
     messages the device will deliver and a device that closes itself after
     close_after deliveries."""
     import mido
     log = []
     with Env() as env:
-        port, devs, incoming = build(cx, mido, kind, log, d, close_after, autoreset)
+        port, devs, incoming = build(cx, mido, kind, log, d, close_after, autoreset, deliver_on_close)
         handed = []            # everything handed out by any retrieval call, in order
         sent = []
         it = None
@@ -199,7 +205,8 @@ def history(cx, kind, n, d, close_after, autoreset):
             except Hang:
                 # only a blocking call on an open port with nothing deliverable may wait
                 can_come = any(dev.incoming and not dev.closed and
-                               not (dev.close_after is not None and dev.delivered >= dev.close_after)
+                               (deliver_on_close or
+                                not (dev.close_after is not None and dev.delivered >= dev.close_after))
                                for dev in devs if hasattr(dev, 'incoming') and dev.name != 'out')
                 cx.check(op in ('receive', 'next') and not port.closed and not can_come and
                          len(port._messages) == 0, 'blocks-only-when-idle-and-open')
@@ -292,7 +299,7 @@ BOUNDS = {
     'quick': 'every history of <=3 operations over {send, receive, poll, next(iter), iter_pending, close, with, reset, panic, '
              'a message arriving at the device} on 4 port kinds (lock-protected device port, EchoPort, IOPort wrapper over two '
              'device ports, MultiPort over two device ports), with 0..2 messages the device will deliver, a device that closes '
-             'itself after 0/1/never deliveries, autoreset on/off; MultiPort blocking receive with the message queued on either '
+             'itself after 0/1/never deliveries (with nothing or with a last message taken in during the closing poll), autoreset on/off; MultiPort blocking receive with the message queued on either '
              'child or arriving; sleeps are counted by a fake sleep with a budget (a wait beyond it = blocked forever)',
     'thorough': 'histories of 4 operations (5 for the device port)',
 }
@@ -321,6 +328,10 @@ def JOBS(tier):
                             continue
                         jobs.append((history, {'kind': kind, 'n': n, 'd': d, 'close_after': ca, 'autoreset': ar},
                                      {'cost': 10 ** n}))
+                    if ca is not None and d > ca and kind != 'echo':
+                        # the device takes its last message in AND closes during the same poll
+                        jobs.append((history, {'kind': kind, 'n': n, 'd': d, 'close_after': ca, 'autoreset': False,
+                                               'deliver_on_close': True}, {'cost': 10 ** n}))
     if not quick:
         for d in (1, 2):
             jobs.append((history, {'kind': 'device', 'n': 5, 'd': d, 'close_after': 1, 'autoreset': False},
